@@ -348,6 +348,8 @@ def gen_fn_case(rng, tier, idx, n=None, exhaustive=False):
                 ret_ann = "tuple"
     elif ra < 0.43 and nvals >= 2:
         ret_ann = rng.choice(["tuple[int]", "None", "tuple", "tuple[" + ", ".join(["int"] * (nvals + 1)) + "]"])  # does not fit
+    if declared is not None and len(set(declared)) != len(declared):
+        ret_ann = None  # repeated labels collapse (python dict); with hints the stored object would not fit them
     api = rng.choice(["dec", "dec_call", "dec_labels", "dec_labels", "to_fn", "fn_node"])
     if declared is not None and api in ("dec", "dec_call"):
         api = "dec_labels"
@@ -975,8 +977,9 @@ def _run(case, h, modname, variant):
         else:
             labels = [r[1] for r in case["rets"]]
         if case["ret_ann"] is None:
-            # a function without return value: the single output "None" is hinted NoneType
-            hints = [NT] if (nvals == 0 and case["declared"] is None) else [None] * len(labels)
+            # no return annotation: the statement says nothing about output hints (the library hints the output of a
+            # function without return value with NoneType; that convention is compared with the model only)
+            hints = [_ANY] * len(labels)
         else:
             x = eval(case["ret_ann"], ns)
             x = NT if x is None else x
@@ -1007,9 +1010,11 @@ def _run(case, h, modname, variant):
                                                       for g, e in zip(got, exp_in))}
 
     def cmp_out(got, exp):  # [(label, hint object)]; a dataclass node is hinted with its own (per use) class: labels only
-        return {"got": [[k, hint_tok(hh)] for k, hh in got], "exp": [[k, hint_tok(hh)] for k, hh in exp],
+        return {"got": [[k, hint_tok(hh)] for k, hh in got],
+                "exp": [[k, "?" if hh is _ANY else hint_tok(hh)] for k, hh in exp],
                 "labels_ok": [g[0] for g in got] == [e[0] for e in exp],
-                "ok": len(got) == len(exp) and all(g[0] == e[0] and (kind == "dc" or g[1] == e[1]) for g, e in zip(got, exp))}
+                "ok": len(got) == len(exp) and all(g[0] == e[0] and (kind == "dc" or e[1] is _ANY or g[1] == e[1])
+                                                   for g, e in zip(got, exp))}
 
     facts["preview_in"] = cmp_in([(k, hh, tok(d)) for k, (hh, d) in pin.items()])
     if exp_out is not None:
@@ -1084,6 +1089,9 @@ def _run(case, h, modname, variant):
 
 class _NoDemandT:
     pass
+
+
+_ANY = _NoDemandT()  # "no demand on this hint"
 
 
 _NoDemand = _NoDemandT()
@@ -1250,7 +1258,7 @@ def oracle(case, r):
     # ---- the runs ------------------------------------------------------------------------------------
     consistent_labels = True
     if kind == "fn" and case["declared"] is not None:
-        consistent_labels = len(case["declared"]) in (1, nvals_of(case))
+        consistent_labels = len(case["declared"]) in (1, nvals_of(case)) and len(set(case["declared"])) == len(case["declared"])
     for i, (run, rf) in enumerate(zip(case["runs"], F.get("runs", []))):
         py = rf["py"]
         where = f"run #{i} inst={run['inst']} call={run['call']}"
